@@ -58,6 +58,14 @@ def client_program(rng, c, avoid, hc_names):
         w = gen.write_op(spec, path='c%d_%d.dlis' % (c, k), ocs=rng.choice([spec.mrl, spec.mrl + 64, 1 << 20]))
         if ext is not None and (k == 0 or ext_mode == 'every'):
             w['data'] = ext
+        rows_c = gen.max_rows(spec)
+        minrows_c = min([(op['kwargs'].get('data') or {}).get('$arr', {}).get('shape', [rows_c])[0] for op in spec.ops
+                         if op.get('op') == 'add' and op.get('kind') == 'channel'] or [rows_c])
+        if nw > 1 and minrows_c > 2 and rng.random() < 0.4:
+            # each write selects its own rows (what an earlier write derived from its rows must not carry over)
+            a = rng.randint(0, minrows_c - 2)
+            w['from_idx'] = a
+            w['to_idx'] = rng.randint(a + 1, minrows_c)
         if rng.random() < 0.3:
             w['input_chunk_size'] = rng.choice([1, 2, 5])
         prog.append(w)
